@@ -16,7 +16,7 @@ import tempfile
 from . import typegen as tg
 from .fingerprint import fp_value, mask
 from .kernel import HarnessError, Streams, Trace, canon, h64
-from .simfs import Fault, FaultyStringIO, SimFS, make_caller_wrapper, norm_encoding
+from .simfs import ChunkyText, Fault, FaultyStringIO, SimFS, make_caller_wrapper, norm_encoding
 
 PROP = 'C19'
 
@@ -44,6 +44,7 @@ def gen_knobs(rng, cls):
         'wrapper_encoding': rng.choice(['utf-8', 'latin-1', 'utf-16', 'ascii', 'utf-8']),
         'wrapper_newline': rng.choice([None, '', '\n', '\r\n']),
         'n_kinds': rng.choice([3, 5, 8, len(C19_KINDS)]),
+        'text_chunk': rng.choice([1, 3, 16, 100, 4096]),
         'fault_kinds': sorted(rng.sample(['ENOSPC', 'EIO', 'short', 'open', 'sticky', 'stream'], rng.choice([2, 3, 4, 6]))),
     }
 
@@ -74,7 +75,7 @@ def gen_yaml_opts(rng):
 
 
 SINKS_PATH = ['p0', 'p1']
-SINKS_STREAM = ['s0', 's1', 's2']   # StringIO, TextIOWrapper over SimRaw, FaultyStringIO
+SINKS_STREAM = ['s0', 's1', 's2', 's3']   # StringIO, TextIOWrapper over SimRaw, FaultyStringIO, ChunkyText
 
 
 def gen_plan(seed: int, cls: str) -> dict:
@@ -312,10 +313,9 @@ class Exec:
             except Exception:
                 self.count('value_not_constructible')
             self.values.append(ent)
-        if self.real:
-            base = os.environ.get('TMPDIR') or ('/dev/shm' if os.path.isdir('/dev/shm') else tempfile.gettempdir())
-            self.tmpdir = tempfile.mkdtemp(prefix='pane_c19_', dir=base)
-        else:
+        base = os.environ.get('VERIF_SCRATCH') or ('/dev/shm' if os.path.isdir('/dev/shm') else tempfile.gettempdir())
+        self.tmpdir = tempfile.mkdtemp(prefix='pane_c19_', dir=base)
+        if not self.real:
             sys.modules['pane.io'].open = self.fs.open  # the seam (module global shadows the builtin)
         for n in SINKS_PATH + ['str0']:
             self.sinks[n] = _Sink(n)
@@ -325,7 +325,9 @@ class Exec:
         s1.obj, s1.raw = make_caller_wrapper(self.fs, self.knobs['wrapper_encoding'], self.knobs['wrapper_newline'])
         s2 = _Sink('s2')
         s2.obj = FaultyStringIO(self.fs)
-        for s in (s0, s1, s2):
+        s3 = _Sink('s3')
+        s3.obj = ChunkyText(self.fs, self.knobs.get('text_chunk', 7))
+        for s in (s0, s1, s2, s3):
             s.state = 'intact'
             self.sinks[s.name] = s
 
@@ -344,8 +346,12 @@ class Exec:
             shutil.rmtree(self.tmpdir, ignore_errors=True)
 
     def path_arg(self, name, kind):
-        p = os.path.join(self.tmpdir, name + '.txt') if self.real else '/sim/' + name + '.txt'
+        p = os.path.join(self.tmpdir, name + '.txt')
         return pathlib.Path(p) if kind == 'Path' else p
+
+    def unpath(self, text):
+        """Details and traces never contain the scratch directory (it differs between processes)."""
+        return text.replace(self.tmpdir, '<scratch>') if self.tmpdir else text
 
     # -- representability precondition (decided with json/yaml directly, never with pane.io)
     def representable(self, ent, fmt, opts, passty, prior_texts):
@@ -378,9 +384,10 @@ class Exec:
                 else:
                     raise HarnessError(f"unknown op {op}")
             except Violation as v:
-                self.violation = {'op_index': i, 'op': op['op'], 'kind': v.kind, 'detail': v.detail,
+                detail = self.unpath(v.detail)
+                self.violation = {'op_index': i, 'op': op['op'], 'kind': v.kind, 'detail': detail,
                                   'signature': f"{op['op']}:{v.kind}"}
-                self.trace.add('violation', i, v.kind, v.detail)
+                self.trace.add('violation', i, v.kind, detail)
                 self.op_raw_writes.append(self.fs.counters['raw_writes'] - w0)
                 break
             finally:
@@ -403,17 +410,16 @@ class Exec:
     def check_ownership(self, i, op, sink, opened_before, fds_before, phase):
         """(O) evaluated at the instant control returns to the caller (normally or by exception)."""
         self.count('checked_O_' + phase)
-        if self.real:
-            if len(os.listdir('/proc/self/fd')) > fds_before:
-                raise Violation('handle_leak', f"file descriptors still open after {op['op']} ({phase})")
         new = self.fs.opens[opened_before:]
         for rec in new:
             if not rec.closed:
-                raise Violation('handle_leak', f"handle on {rec.path} (mode {rec.mode!r}) still open when "
+                raise Violation('handle_leak', f"handle on {os.path.basename(rec.path)} (mode {rec.mode!r}) still open when "
                                                f"{op['op']} returned control ({phase})")
+        if len(os.listdir('/proc/self/fd')) > fds_before:
+            raise Violation('handle_leak', f"file descriptors still open when {op['op']} returned control ({phase})")
         for rec in new:
             if rec.text and norm_encoding(rec.encoding) != 'utf-8':
-                raise Violation('not_utf8', f"path {rec.path} opened with encoding={rec.encoding!r}")
+                raise Violation('not_utf8', f"path {os.path.basename(rec.path)} opened with encoding={rec.encoding!r}")
         if sink.obj is not None:
             if sink.obj.closed:
                 raise Violation('caller_stream_closed', f"caller's stream {sink.name} is closed after {op['op']} ({phase})")
@@ -477,7 +483,7 @@ class Exec:
             kw['custom'] = ent['H']
         faults = self.arm(op)
         opened_before = len(self.fs.opens)
-        fds_before = len(os.listdir('/proc/self/fd')) if self.real else 0
+        fds_before = len(os.listdir('/proc/self/fd'))
         sink.nops += 1
         if sink.nops >= 2:
             self.nontrivial = True
@@ -554,15 +560,13 @@ class Exec:
             self.count('non_ascii_through_path')
 
     def _path_exists(self, sink):
-        if self.real:
-            return os.path.exists(self.path_arg(sink.name, 'str'))
-        return self.path_arg(sink.name, 'str') in self.fs.files
+        return os.path.exists(self.path_arg(sink.name, 'str'))
 
     def _sink_text(self, sink, op):
         """What the sink holds, as the caller would find it: a caller stream is read back through the
         caller's own stream object (its encoding is the caller's business); a path is decoded as UTF-8."""
         if sink.obj is not None:
-            if isinstance(sink.obj, io.StringIO):
+            if isinstance(sink.obj, (io.StringIO, ChunkyText)):
                 return sink.obj.getvalue()
             try:
                 sink.obj.flush()
@@ -573,17 +577,11 @@ class Exec:
             except Exception as e:
                 raise Violation('caller_stream_unusable', f"caller's stream {sink.name} cannot be flushed/read back after an "
                                                           f"acknowledged write: {type(e).__name__}: {mask(str(e))[:120]}")
-        if self.real:
-            try:
-                with open(self.path_arg(sink.name, 'str'), 'rb') as f:
-                    raw = f.read()
-            except FileNotFoundError:
-                raise Violation('ack_write_unreadable', f"path {sink.name} does not exist after an acknowledged write")
-        else:
-            key = self.path_arg(sink.name, 'str')
-            if key not in self.fs.files:
-                raise Violation('ack_write_unreadable', f"path {sink.name} does not exist after an acknowledged write")
-            raw = bytes(self.fs.files[key])
+        try:
+            with open(self.path_arg(sink.name, 'str'), 'rb') as f:
+                raw = f.read()
+        except FileNotFoundError:
+            raise Violation('ack_write_unreadable', f"path {sink.name} does not exist after an acknowledged write")
         try:
             return raw.decode('utf-8')
         except UnicodeDecodeError as e:
@@ -643,7 +641,7 @@ class Exec:
             source = docs[0][2]
         elif is_stream:
             try:
-                if not isinstance(sink.obj, io.StringIO):
+                if not isinstance(sink.obj, (io.StringIO, ChunkyText)):
                     sink.obj.flush()
                 sink.obj.seek(0)
             except Exception as e:
@@ -656,7 +654,7 @@ class Exec:
             kw['custom'] = ent['H']
         faults = self.arm(op)
         opened_before = len(self.fs.opens)
-        fds_before = len(os.listdir('/proc/self/fd')) if self.real else 0
+        fds_before = len(os.listdir('/proc/self/fd'))
         sink.nops += 1
         if sink.nops >= 2:
             self.nontrivial = True
@@ -757,6 +755,7 @@ def execute(plan, want_trace=False) -> dict:
     res['counters']['raw_writes'] = ex.fs.counters['raw_writes']
     res['counters']['raw_reads'] = ex.fs.counters['raw_reads']
     res['counters']['opens'] = ex.fs.counters['opens']
+    res['counters']['text_short_reads'] = ex.fs.counters.get('text_short_reads', 0)
     if want_trace:
         res['trace'] = ex.trace.events
     return res
@@ -782,11 +781,15 @@ def reset_world():
 
 
 def run_one(cfg, item):
+    from .kernel import run_isolated
+    return run_isolated(_run_one, cfg, item)
+
+
+def _run_one(cfg, item):
     """Batch entry: item = (cls, index) ; cfg = {'verif_seed':..}"""
     from .kernel import run_seed
     (cls, index) = item
     seed = run_seed(cfg['verif_seed'], PROP, cls, index)
-    reset_world()
     plan = gen_plan(seed, cls)
     res = execute(plan, want_trace=cfg.get('want_trace', False))
     res['cls'] = cls
@@ -795,18 +798,21 @@ def run_one(cfg, item):
     if res['violation'] is not None or cfg.get('keep_plan'):
         res['plan'] = plan
     if index < cfg.get('sample', 0) and cls != 'realdisk':
-        reset_world()
-        r2 = execute(plan, want_trace=True)
+        r2 = execute_isolated(plan, want_trace=True)
         res['sample'] = {'class': cls, 'index': index, 'seed': seed, 'plan': plan, 'trace': r2['trace']}
     return res
 
 
 def sweep_one(cfg, item):
+    from .kernel import run_isolated
+    return run_isolated(_sweep_one, cfg, item)
+
+
+def _sweep_one(cfg, item):
     """Fault-position sweep: plan index + operation index + fault kind + k."""
     from .kernel import run_seed
     (cls, index, op_i, kind, k, where) = item
     seed = run_seed(cfg['verif_seed'], PROP, cls, index)
-    reset_world()
     plan = gen_plan(seed, cls)
     plan['cls'] = 'faulty'
     plan['ops'][op_i]['faults'] = [{'where': where, 'kind': kind, 'k': k, 'sticky': False}]
@@ -821,11 +827,15 @@ def sweep_one(cfg, item):
 
 
 def sweep_probe(cfg, item):
+    from .kernel import run_isolated
+    return run_isolated(_sweep_probe, cfg, item)
+
+
+def _sweep_probe(cfg, item):
     """Measure raw writes / reads per operation of a fault-free plan (to enumerate fault positions)."""
     from .kernel import run_seed
     (cls, index) = item
     seed = run_seed(cfg['verif_seed'], PROP, cls, index)
-    reset_world()
     plan = gen_plan(seed, cls)
     res = execute(plan)
     targets = []
@@ -1020,3 +1030,8 @@ def describe_counters():
                  "fault plans); distinct = distinct run digest (sha256 of the run's trace); non-trivial = the run fired "
                  "at least one injected fault inside an operation or performed >= 2 operations on one sink"),
     }
+
+
+def execute_isolated(plan, want_trace=False):
+    from .kernel import run_isolated
+    return run_isolated(execute, plan, want_trace)
